@@ -72,6 +72,13 @@ func (e *Engine) VerifyFunc(key string) (res *FuncResult) {
 					clause = strings.Join(vs, "; ")
 				}
 				x.vc.obls = append(x.vc.obls, &Obligation{Name: key + ".guarded-access", Func: key, Kind: "lock", Pos: e.pos(fi.Decl.Pos()), Clause: clause, Goal: goal, vc: x.vc})
+				if len(e.db.Owner) > 0 {
+					g2, c2 := "true", "no write to a field that another goroutine owns"
+					if len(x.ownerViolations) > 0 {
+						g2, c2 = "false", strings.Join(x.ownerViolations, "; ")
+					}
+					x.vc.obls = append(x.vc.obls, &Obligation{Name: key + ".single-writer", Func: key, Kind: "lock", Pos: e.pos(fi.Decl.Pos()), Clause: c2, Goal: g2, vc: x.vc})
+				}
 			}
 			x.finalizeObls()
 			res.Obls = x.vc.obls
